@@ -5,6 +5,7 @@ import (
 	"fmt"
 	"io"
 	"math"
+	"math/rand"
 
 	"github.com/EliCDavis/polyform/formats/spz"
 	"github.com/EliCDavis/polyform/modeling"
@@ -23,10 +24,7 @@ func spzDecode(c *run.Ctx) (res run.Result) {
 	version := uint32(1 + c.Case%2)
 	deg := uint8((c.Case / 2) % 4)
 	level := gzLevels[(c.Case/8)%len(gzLevels)]
-	fb := uint8(r.Intn(24))
-	if r.Intn(6) == 0 {
-		fb = uint8(24 + r.Intn(7))
-	}
+	fb := drawFractionalBits(r)
 	n := splatCount(r, c.Tier)
 	nonFinite := version == 1 && r.Intn(3) == 0
 	s := splatref.RandomSPZ(r, version, n, deg, fb, uint8(r.Intn(2)), !nonFinite)
@@ -54,6 +52,29 @@ func spzDecode(c *run.Ctx) (res run.Result) {
 		res.Sample = map[string]any{"version": version, "sh_degree": deg, "fractional_bits": fb, "points": n, "gzip_level": level, "gzip_bytes": len(data), "point_0_dequantised": fmt.Sprintf("%+v", s.Point(0))}
 	}
 	return
+}
+
+// maxJudgedFractionalBits: the header field is a byte. polyform computes the version-2
+// position scale as 1/float64(1<<bits) in a 64-bit int: exact 2^-bits for 0…62, the NEGATED
+// scale for 63 (1<<63 is the most negative int) and +Inf for 64…255 (the shift yields 0);
+// the published decoder shifts a 32-bit int and is undefined from 31 on. Version-2
+// positions are judged for 0…62, where the unchanged decode is finite and equals
+// fixed·2^-bits exactly; for 63…255 they are only counted. Everything else of such a
+// stream (and version-1 positions, which ignore the field) is judged as usual.
+const maxJudgedFractionalBits = 62
+
+func drawFractionalBits(r *rand.Rand) uint8 {
+	switch u := r.Intn(20); {
+	case u < 10:
+		return uint8(r.Intn(24))
+	case u < 13:
+		return uint8(24 + r.Intn(8)) // 24…31
+	case u < 17:
+		return uint8(32 + r.Intn(31)) // 32…62
+	case u < 18:
+		return 63
+	}
+	return uint8(64 + r.Intn(192))
 }
 
 type v3At interface {
@@ -167,6 +188,7 @@ func checkSPZFrom(c *run.Ctx, res *run.Result, s *splatref.SPZ, in io.Reader, ki
 	}
 	idx := m.Indices()
 	alphaUnit, alphaLogit := 0, 0
+	unjudgedPosEqual, unjudgedPosDiffer := 0, 0
 	for k := 0; k < n; k++ {
 		i := idx.At(k)
 		if i != k {
@@ -179,7 +201,13 @@ func checkSPZFrom(c *run.Ctx, res *run.Result, s *splatref.SPZ, in io.Reader, ki
 		}
 		p, sv, cv, q := pos.At(i), sc.At(i), col.At(i), rot.At(i)
 		for c := 0; c < 3; c++ {
-			if !sameBits(p.Component(c), want.Pos[c]) {
+			if version == 2 && fb > maxJudgedFractionalBits {
+				if sameBits(p.Component(c), want.Pos[c]) {
+					unjudgedPosEqual++
+				} else {
+					unjudgedPosDiffer++
+				}
+			} else if !sameBits(p.Component(c), want.Pos[c]) {
 				bad("position", fmt.Sprintf("position[%d] = %v, record dequantises to %v", c, p.Component(c), want.Pos[c]))
 			}
 			if !sameBits(sv.Component(c), want.Scale[c]) {
@@ -222,6 +250,19 @@ func checkSPZFrom(c *run.Ctx, res *run.Result, s *splatref.SPZ, in io.Reader, ki
 		}
 	}
 	res.Count("spz/points_compared", int64(n))
+	if version == 2 && fb > maxJudgedFractionalBits {
+		bucket := "63"
+		if fb >= 64 {
+			bucket = "64-255"
+		}
+		res.Count("spz/v2_positions_not_judged/fractional_bits_"+bucket+"/equal_to_fixed_times_2^-bits", int64(unjudgedPosEqual))
+		res.Count("spz/v2_positions_not_judged/fractional_bits_"+bucket+"/different", int64(unjudgedPosDiffer))
+	} else if version == 2 {
+		res.Count("spz/v2_positions_judged", int64(3*n))
+		if fb >= 32 {
+			res.Count("spz/v2_positions_judged/fractional_bits_32-62", int64(3*n))
+		}
+	}
 	res.Count("spz/sh_coefficients_compared", int64(n*dim*3))
 	res.Count("spz/opacity_is_a_over_255", int64(alphaUnit))
 	res.Count("spz/opacity_is_logit", int64(alphaLogit))
